@@ -283,6 +283,11 @@ def reuse_across_frames(ctx, b, d):
                     if f is not g:
                         cases.append({"id": len(cases) + 1, "chunks": [{"file": g["save"]}], "cfg": dict(cfg, preFile=f["save"]), "g": g["name"], "f": f["name"],
                                       "ref": ref["id"]})
+                        # ... and abandoned in the middle of a block (sequential earlier life: an abandoned concurrent
+                        # pipeline keeps its goroutines, which is outside what C08 promises)
+                        if conc == 1:
+                            cases.append({"id": len(cases) + 1, "chunks": [{"file": g["save"]}], "cfg": dict(cfg, preFile=f["save"], prePart=100000),
+                                          "g": g["name"], "f": f["name"] + "(100000 bytes)", "ref": ref["id"]})
     recs, faults = fl.shard_run(b, "frame-read", cases, d, "reuser", extra=("--watchdog", "60s"))
     if faults:
         raise vlib.MachineryFault("frame-read failed: %s" % faults[0]["stderr"][-600:])
